@@ -76,7 +76,7 @@ func envFieldTarget(info *types.Info, l ast.Expr) string {
 
 // rulePU4: Args, Opts, Aliases, vars are written only where they may be.
 func rulePU4() Rule {
-	return Rule{ID: "PU4", Kind: "must-not", Floor: 4,
+	return Rule{ID: "PU4", Kind: "must-not", Floor: 2,
 		Doc: "who-may-write: ExecEnv.Args/Opts/Aliases are assigned (field, element, map entry, delete) only in NewExecEnv; ExecEnv.vars only in NewExecEnv, Set and Unset; the store in Set comes after the read-only test for special and positional parameters (PU5)",
 		Run: func(c *Ctx, rr *core.RuleResult) {
 			allowed := map[string]map[string]bool{
@@ -242,7 +242,7 @@ func keysOf(m map[string]bool) []string {
 
 // rulePU6: who calls Set / Unset.
 func rulePU6() Rule {
-	return Rule{ID: "PU6", Kind: "must", Floor: 6,
+	return Rule{ID: "PU6", Kind: "must", Floor: 3,
 		Doc: "ExecEnv.Set is called only by the := / = arm of expandParam and by the arithmetic assignment, ++ and -- reductions; nothing in the repository calls Unset; in expandParam no error return is reachable after the Set (PU7)",
 		Run: func(c *Ctx, rr *core.RuleResult) {
 			set := c.mustFn(rr, "interp.(*ExecEnv).Set")
